@@ -2,7 +2,7 @@ SPEC = dict(
     claimed=True,
     title='A failing sensor or fan read/write never crashes the daemon',
     props_file='Props/C09.v', props_mod='Props.C09',
-    proof_files=['Proofs/Faults.v', 'Drv/Faults.v', 'Proofs/Restore.v'],
+    proof_files=['Proofs/Faults.v', 'Proofs/Daemon.v', 'Drv/Faults.v', 'Drv/Daemon.v', 'Proofs/Restore.v'],
     tie_vo=[],
     drivers=[dict(name='faults', drv_mod='Drv.Faults', drv_file='Drv/Faults.v', shard=300,
                   timeout={'quick': 900, 'thorough': 3000}),
